@@ -37,4 +37,6 @@ def run(ctx):
                                sample={"fn": fn, "pm1_form": repr(v), "range": [lo, hi]})
         else:
             ctx.undecided("longitude-reduction", fn + ":shape", "unexpected return %s" % show(ret), at=b.span)
-    ctx.not_decided("the projection formulae, inverse property, 1e-14 accuracy (float numerics); base_cell_from_proj_coo table (planned, E4)")
+    from rules import c17_table
+    c17_table.run(ctx, crate)
+    ctx.not_decided("the projection formulae, inverse property, 1e-14 accuracy (float numerics); base_cell_from_proj_coo on points exactly on a diagonal / facet seam (float ties)")
